@@ -511,7 +511,8 @@ class Bundle:
         parts = []
         for f, p in self.feats.items():
             if p:
-                parts.append("%s(%s)" % (f, ", ".join('%s = "%s"' % kv for kv in p.items())))
+                parts.append("%s(%s)" % (f, ", ".join((k if v is True else '%s = "%s"' % (k, v))
+                                                      for k, v in p.items())))
             else:
                 parts.append(f)
         if not parts:
